@@ -355,15 +355,18 @@ def Branch.revnoMap (b : Branch) : Except Err (List (Nat × List Nat)) := do
   let ms ← b.mergeSorted
   pure (ms.map fun e => (e.rev, e.revno))
 
+/-- `if len(revision_ids) == 1: return revision_ids[0]` else NoSuchRevision -/
+def pickOne : List (Nat × List Nat) → Except Err RevId
+  | [e] => .ok (.rev e.1)
+  | _ => .error .noSuchRevision
+
 /-- `_do_dotted_revno_to_revision_id` -/
 def Branch.dottedToRevId (b : Branch) (revno : List Int) : Except Err RevId :=
   match revno with
   | [n] => b.getRevId n
   | _ => do
     let m ← b.revnoMap
-    match m.filter (fun e => e.2.map Int.ofNat == revno) with
-    | [e] => pure (.rev e.1)
-    | _ => .error .noSuchRevision
+    pickOne (m.filter (fun e => e.2.map Int.ofNat == revno))
 
 /-- `_do_revision_id_to_dotted_revno` (caches empty) -/
 def Branch.revIdToDotted (b : Branch) (id : RevId) : Except Err (List Int) :=
@@ -564,16 +567,25 @@ inductive Kind where
   | revno | revid | last | before | tag | ancestor | mainline | unsupportedPrefix | dwim
   deriving DecidableEq, Repr
 
-def prefixes : List (String × Kind) :=
-  [("revno:", .revno), ("revid:", .revid), ("last:", .last), ("before:", .before), ("tag:", .tag),
-   ("ancestor:", .ancestor), ("mainline:", .mainline), ("date:", .unsupportedPrefix),
-   ("branch:", .unsupportedPrefix), ("submit:", .unsupportedPrefix), ("annotate:", .unsupportedPrefix),
-   ("git:", .unsupportedPrefix), ("svn:", .unsupportedPrefix)]
+def pRevno : List Char := ['r', 'e', 'v', 'n', 'o', ':']
+def pRevid : List Char := ['r', 'e', 'v', 'i', 'd', ':']
+def pLast : List Char := ['l', 'a', 's', 't', ':']
+def pBefore : List Char := ['b', 'e', 'f', 'o', 'r', 'e', ':']
+def pTag : List Char := ['t', 'a', 'g', ':']
+def pAncestor : List Char := ['a', 'n', 'c', 'e', 's', 't', 'o', 'r', ':']
+def pMainline : List Char := ['m', 'a', 'i', 'n', 'l', 'i', 'n', 'e', ':']
+
+def prefixes : List (List Char × Kind) :=
+  [(pRevno, .revno), (pRevid, .revid), (pLast, .last), (pBefore, .before), (pTag, .tag),
+   (pAncestor, .ancestor), (pMainline, .mainline), ("date:".toList, .unsupportedPrefix),
+   ("branch:".toList, .unsupportedPrefix), ("submit:".toList, .unsupportedPrefix),
+   ("annotate:".toList, .unsupportedPrefix), ("git:".toList, .unsupportedPrefix),
+   ("svn:".toList, .unsupportedPrefix)]
 
 /-- `RevisionSpec.from_string`: the registered prefix the string starts with,
 and the rest -/
 def classify (s : List Char) : Kind × List Char :=
-  match prefixes.findSome? fun (p, k) => (stripPrefix? p.toList s).map fun r => (k, r) with
+  match prefixes.findSome? fun (p, k) => (stripPrefix? p s).map fun r => (k, r) with
   | some r => r
   | none => (.dwim, s)
 
@@ -632,16 +644,16 @@ def matchOn (b : Branch) : Nat → List Char → Except Err Info
       -- RevisionSpec_dwim._match_on: revno, then tag, revid, date, branch
       let tryRevno : Option (Except Err Info) :=
         if revnoRegex s then
-          match inHist b fuel ("revno:".toList ++ s) with
+          match inHist b fuel (pRevno ++ s) with
           | .error .invalidRevisionSpec => none
           | r => some r
         else none
       match tryRevno with
       | some r => r
       | none =>
-        match inHist b fuel ("tag:".toList ++ s) with
+        match inHist b fuel (pTag ++ s) with
         | .error .noSuchTag =>
-          (match inHist b fuel ("revid:".toList ++ s) with
+          (match inHist b fuel (pRevid ++ s) with
             | .error .invalidRevisionSpec =>
               if looksLikeDate s || ["yesterday", "today", "tomorrow"].contains (String.ofList (lower s))
               then .error .unsupported
